@@ -465,3 +465,25 @@ reg("C12", "exploration",
     "An independent closed-form reference (self-tested against numerical projection and KKT) is used only to aim at boundaries and scale "
     "tolerances; stencils crossing a zone boundary are skipped and counted.",
     "metamorphic / finite-difference relations on the real function with analytic boundary targeting")
+
+reg("C13", "exploration",
+    "Two-geom scenes (free/free, static/free, mocap/free, explicit pair; sizes over 3 decades; margin/gap) across 7 pose classes and 5 "
+    "orientation classes: every contact is checked for a unit normal, an orthonormal frame, dist <= margin+gap, geom ids and includemargin; "
+    "for the 12 analytic primitive pairs the deepest contact is compared with a closed-form signed distance and its normal must realise "
+    "that distance; the contact position must lie between the two surfaces; mj_geomDistance is called in both argument orders and compared "
+    "with itself, the contact and the reference.",
+    "dist <= margin+gap (documented detection distance); in multi-contact manifolds only the deepest contact is compared; degenerate "
+    "axis-aligned sphere centres skipped and counted; pairs without a closed form get the universal invariants only. Seven open known "
+    "findings (capsule-capsule parallel branch, capsule-box interior/threshold/bestdist, plane-capsule frame, box-box within margin, two CCD mechanisms).",
+    "reference-model oracle (closed-form geometry, self-tested) over the real collision functions")
+
+reg("C15", "exploration",
+    "For the 15 native GJK/EPA pairs (sphere, capsule, ellipsoid, cylinder, box, inline convex meshes) over sizes spanning 2 decades, aspect "
+    "ratios to 50, margins, multiccd on/off and ccd_tolerance 1e-6..1e-4: the contact distance and mj_geomDistance in both argument orders "
+    "must lie in a certified reference bracket (lower/upper bounds from support-function certificates when separated, exact minimum-translation "
+    "depth for polytope cores) within max(10 ccd_tolerance, 1e-6 size), the two orders must agree, and the reported direction must realise "
+    "the reported distance.",
+    "The libccd comparison clause is not decidable in this build (library absent; native CCD is the only path). A mismatch that disappears "
+    "at 10x ccd_iterations is skipped and counted (<2%). Four open known findings (coincident centres, boundary-simplex EPA start, "
+    "cylinder cap on parallel face, rare EPA face violating its own stopping rule - rate-guarded).",
+    "certified convex-optimisation reference with primal/dual bounds over the real narrow phase")
